@@ -201,3 +201,89 @@ type WaitGroup struct{ wg sync.WaitGroup }
 func (w *WaitGroup) Add(n int) { vsched.Point("wg.Add"); w.wg.Add(n) }
 func (w *WaitGroup) Done()     { vsched.Point("wg.Done"); w.wg.Done() }
 func (w *WaitGroup) Wait()     { vsched.Point("wg.Wait"); w.wg.Wait(); vsched.Point("wg.Wait:woke") }
+
+// Go is sync.WaitGroup.Go (Go 1.25): the function runs in a goroutine the explorer knows.
+func (w *WaitGroup) Go(f func()) {
+	w.Add(1)
+	vsched.Go("wg.Go", func() {
+		defer w.Done()
+		f()
+	})
+}
+
+// The rest of package sync, so that a change of the code under test that starts using
+// it still builds: Map and Pool are the real ones (their operations are atomic with
+// the step of the goroutine that makes them); Cond waits on a channel (durable for
+// synctest) with scheduling points; the Once helpers are built on Once.
+type (
+	Map  = sync.Map
+	Pool = sync.Pool
+)
+
+type Cond struct {
+	L       Locker
+	mu      sync.Mutex
+	waiters []chan struct{}
+}
+
+func NewCond(l Locker) *Cond { return &Cond{L: l} }
+
+func (c *Cond) Wait() {
+	vsched.Point("cond.Wait")
+	ch := make(chan struct{})
+	c.mu.Lock()
+	c.waiters = append(c.waiters, ch)
+	c.mu.Unlock()
+	c.L.Unlock()
+	<-ch
+	vsched.Point("cond.Wait:woke")
+	c.L.Lock()
+}
+
+func (c *Cond) Signal() {
+	vsched.Point("cond.Signal")
+	c.mu.Lock()
+	if len(c.waiters) > 0 {
+		close(c.waiters[0])
+		c.waiters = c.waiters[1:]
+	}
+	c.mu.Unlock()
+}
+
+func (c *Cond) Broadcast() {
+	vsched.Point("cond.Broadcast")
+	c.mu.Lock()
+	for _, ch := range c.waiters {
+		close(ch)
+	}
+	c.waiters = nil
+	c.mu.Unlock()
+}
+
+func OnceFunc(f func()) func() {
+	var o Once
+	return func() { o.Do(f) }
+}
+
+func OnceValue[T any](f func() T) func() T {
+	var (
+		o Once
+		v T
+	)
+	return func() T {
+		o.Do(func() { v = f() })
+		return v
+	}
+}
+
+func OnceValues[T1, T2 any](f func() (T1, T2)) func() (T1, T2) {
+	var (
+		o  Once
+		v1 T1
+		v2 T2
+	)
+	return func() (T1, T2) {
+		o.Do(func() { v1, v2 = f() })
+		return v1, v2
+	}
+}
